@@ -340,3 +340,32 @@ Definition quota_new (budget_milli cap_milli cur : Z) : Z :=
     if (step <? (q - cur) * snd beMaxIncreaseCPUPercent) && negb (cur =? -1)
     then cur + Z.quot step (snd beMaxIncreaseCPUPercent)
     else q.
+
+(* ================================================================ Part 5: quota mode over a history *)
+
+(* One CPUSuppress instance (one executor, one cache) over a sequence of rounds.  The state the
+   quota file depends on: its current contents and suppressPolicyStatuses[cfsQuota] = recovered.
+   adjustByCfsQuota reads the real file every time and writes with Update(false, ...), so the
+   executor's value cache plays no part. *)
+Inductive qop : Type :=
+| QAdjust (b : Z)     (* quota round as suppressBECPU runs it: adjustByCfsQuota, status := using *)
+| QRecover            (* recoverCFSQuotaIfNeed *)
+| QReset (v : Z)      (* somebody else rewrites cpu.cfs_quota_us *)
+| QCpuset.            (* a cpuset-mode adjustByCPUSet on the same instance *)
+
+Definition qstep (cap : Z) (st : Z * bool) (op : qop) : Z * bool :=
+  let '(cur, rec) := st in
+  match op with
+  | QAdjust b => (quota_new b cap cur, false)
+  | QRecover => if rec then (cur, true) else (-1, true)
+  | QReset v => (v, rec)
+  | QCpuset => (cur, rec)
+  end.
+
+(* cpu.cfs_quota_us after every step *)
+Fixpoint hist (cap : Z) (st : Z * bool) (ops : list qop) : list Z :=
+  match ops with
+  | [] => []
+  | op :: t => let st' := qstep cap st op in fst st' :: hist cap st' t
+  end.
+
